@@ -15,3 +15,4 @@ import ThriftVerif.Props.C11
 #print axioms Props.C11.answer_honoured
 #print axioms Props.C11.warnings_shown_on_failure
 #print axioms Props.C11.each_generate_runs_own_plugins
+#print axioms Props.C11.plugin_params_own
